@@ -18,7 +18,7 @@ RULE = ("every history of <= D operations from {write 1/3/5 bytes, writeSequence
         "operation. non-trivial = distinct (history, accept pattern) with a partial/zero accept, a two-level "
         "buffer (dataBuffer and _tempDataBuffer both pending), a producer pause/resume or a deferred close")
 BOUNDS = {"quick": "histories <= 5 ops + drain with <= 1 short write; histories <= 4 ops + drain with <= 2 short writes",
-          "thorough": "histories <= 6 ops + drain with <= 1 short write; <= 5 ops over the extended alphabet with <= 2 short writes"}
+          "thorough": "histories <= 6 ops + drain with <= 1 short write; <= 5 ops with <= 2 short writes; extended alphabet: <= 5 ops with <= 1, <= 4 ops with <= 2 short writes"}
 ASSUMPTIONS = [
     "the harness is the reactor: doWrite is called only while the descriptor is registered as a writer, a "
     "non-None doWrite result is followed by connectionLost (as _disconnectSelectable does)",
@@ -29,7 +29,7 @@ ASSUMPTIONS = [
     "OS errors from writeSomeData are not part of the alphabet",
 ]
 MIN = {"quick": {"evaluations": 600000, "nontrivial": 120000, "outcomes": 9},
-       "thorough": {"evaluations": 10000000, "nontrivial": 500000, "outcomes": 9}}
+       "thorough": {"evaluations": 6000000, "nontrivial": 600000, "outcomes": 9}}
 LEVEL_TEXT = ("All operation histories up to the stated length on the real FileDescriptor, each with every single "
               "(thorough: every pair of) short-write answer(s) of the OS, checked against a byte-stream/close/producer oracle.")
 
@@ -354,7 +354,7 @@ def run(ch, depth, ext, base):
 
 
 CONFIGS = {"quick": [(5, False, 1, 2), (4, False, 2, 2)],
-           "thorough": [(6, False, 1, 3), (5, True, 2, 3)]}     # depth, extended alphabet, deviation bound, shard level
+           "thorough": [(6, False, 1, 3), (5, True, 1, 3), (5, False, 2, 3), (4, True, 2, 2)]}     # depth, extended alphabet, deviation bound, shard level
 
 
 def shards(tier, seed):
